@@ -104,10 +104,11 @@ class Runner:
         import quantarhei as qr
         from quantarhei.spectroscopy.twod2 import TwoDResponse
         self.numpy = numpy
-        self.BASE = numpy.array([[1, 2], [3, 5]], dtype=complex)
+        # axes of different lengths (2 and 3 points): the stored arrays are not square
+        self.BASE = numpy.array([[1, 2, 4], [3, 5, 7]], dtype=complex)
         self.obj = TwoDResponse()
         self.obj.set_axis_1(qr.FrequencyAxis(0.0, 2, 1.0))
-        self.obj.set_axis_3(qr.FrequencyAxis(0.0, 2, 1.0))
+        self.obj.set_axis_3(qr.FrequencyAxis(0.0, 3, 1.0))
 
     def val(self, arr):
         """array -> integer coefficient, None, or raises if the array is not v*BASE"""
